@@ -201,3 +201,20 @@ Proof.
     destruct (c_ops c) as [|[offered [|l]|] ops']; try discriminate.
     exists offered, ops'. repeat split. exists rest. reflexivity.
 Qed.
+
+(* agree on a case: the observed outputs ARE the model's, so every theorem about [run] /
+   [run_state] speaks about what the implementation did on that case *)
+Lemma out_eqb_spec : forall a b, out_eqb a b = true <-> a = b.
+Proof.
+  intros [x| x | |] [y | y | |]; cbn; split; intro H; try discriminate; try reflexivity.
+  - apply (list_eqb_spec N.eqb N.eqb_eq) in H. congruence.
+  - injection H as ->. apply (list_eqb_spec N.eqb N.eqb_eq). reflexivity.
+  - apply (list_eqb_spec pair_eqb (prod_eqb_spec N.eqb N.eqb N.eqb_eq N.eqb_eq)) in H. congruence.
+  - injection H as ->. apply (list_eqb_spec pair_eqb (prod_eqb_spec N.eqb N.eqb N.eqb_eq N.eqb_eq)). reflexivity.
+Qed.
+
+Theorem agree_sound : forall c : case,
+  agree c = true -> c_outs c = run (lookup_parse (c_parse c)) (c_cfg c) (c_ops c).
+Proof.
+  intros c H. unfold agree in H. apply (list_eqb_spec out_eqb out_eqb_spec) in H. symmetry. exact H.
+Qed.
